@@ -54,7 +54,7 @@ class C09(P.Property):
     probe_names = ["scheme_" + s for s in fe.SCHEMES] + ["recreate_before_" + w for w in WORKFLOW[1:]] + [
         "recreate_before_first_search", "recreate_between_searches", "kept_object_whole_workflow", "server_restart_before_first_search",
         "server_restart_between_searches", "recreate_inside_cleanup_window", "absent_keyword", "near_miss_keyword", "nondefault_config",
-        "stall_over_60s", "decoy_service", "decoy_other_config", "idle_connection"]
+        "stall_over_60s", "decoy_service", "decoy_other_config", "idle_connection", "op_failed_under_fault", "server_read_error", "client_object_kept_after_fault", "blocked_by_other_connection"]
 
     def setup(self):
         world.setup_frontend()
@@ -136,8 +136,15 @@ class C09(P.Property):
                      net=rng.choice([dict(lo=0.001, hi=0.05), dict(lo=0.001, hi=0.05, seg=3), dict(lo=0.0005, hi=0.004), dict(lo=0.01, hi=0.3, tail=0.1, seg=2)]),
                      skew=rng.choice([1.0, 1.0, 0.5, 2.0]), bufsize=rng.choice([8192, 8192, 16]), stall=None,
                      sse2_spare=rng.choice([0, 0, 3]), decoy=rng.random() < 0.3)
+        knobs["read_fault"] = None
+        knobs["keep_after_fault"] = rng.random() < 0.5
         if rng.random() < 0.08:
             knobs["stall"] = {"search": rng.randrange(len(steps)), "secs": rng.choice([0.5, 5, 70])}
+        elif rng.random() < 0.06:
+            knobs["read_fault"] = {"search": rng.randrange(len(steps))}
+        knobs["blocker"] = None
+        if knobs["stall"] is None and knobs["read_fault"] is None and rng.random() < 0.06:
+            knobs["blocker"] = {"search": rng.randrange(len(steps)), "hold": rng.choice([5, 30, 70, 70])}
         return {"property": "C09", "seed": seed, "knobs": knobs, "steps": steps}
 
     def enumerate(self, tier):
@@ -279,9 +286,12 @@ class C09(P.Property):
             probes["server_restart_before_first_search"] = 1
         # ---- the searches
         stall = knobs.get("stall")
+        after_fault = False
         for si, st in enumerate(plan["steps"]):
             w = st["w"].encode("utf-8")
-            if st.get("restart") and not first:
+            if after_fault and host.obj is not None:
+                pass  # a long-lived client that just sat through a fault goes on with the same object
+            elif st.get("restart") and not first:
                 await self._restart(run, host, out)
                 probes["server_restart_between_searches"] = 1
             elif st.get("recreate") or (first and knobs["recreate"][4]):
@@ -291,25 +301,58 @@ class C09(P.Property):
                 await asyncio.sleep(st["idle"])
             stalled = False
             if stall and stall["search"] == si:
-                run.sim.stall_once = ("s", stall["secs"])
+                # the reply to this request is what stalls (not the handshake or the init echo of a connection just opened)
+                run.sim.stall_once = ("s", stall["secs"], 2 + 2 * (knobs["net"].get("seg", 1) > 1))
                 stalled = True
                 if stall["secs"] >= 60:
                     probes["stall_over_60s"] = 1
+            bl = knobs.get("blocker")
+            if bl is not None and bl["search"] == si:
+                # another connection for the same service is open (a forgotten terminal): it is served first, this client's requests
+                # queue on the server for bl["hold"] seconds -- longer than the client's 60 s patience when hold >= 61
+                await host.drop()
+                blocker = fe.RawActor(run, "blocker", sid)
+                await blocker.open()
+                await blocker.wait_change(lambda: blocker.init is not None, 30)
+                probes["blocked_by_other_connection"] = 1
+                run.sim.count("blocker")
+
+                async def release(b=blocker, hold=bl["hold"]):
+                    await asyncio.sleep(hold)
+                    await b.close()
+                run.sim.tasks.append(asyncio.ensure_future(release()))
+                stalled = True
+            rf = knobs.get("read_fault")
+            if rf is not None and rf["search"] == si:
+                run.seam.fail_read = ("server", "edb")  # the server's next read of the stored index fails once (EMFILE)
+            faulted = stalled or run.seam.fail_read is not None or after_fault
             cls = "present" if w in db else "absent"
             if cls == "absent":
                 probes["absent_keyword" if st["w"].startswith("absent") or st["w"] == "nothing" else "near_miss_keyword"] = 1
+            nfault0 = run.sim.counters.get("read_error", 0) + run.sim.counters.get("stall", 0)
             r = await host.search(sid, w, fresh=host.obj is None, keep=True)
             run.sim.stall_once = None
             first = False
+            hit = (run.sim.counters.get("read_error", 0) + run.sim.counters.get("stall", 0)) > nfault0 or (bl is not None and bl["search"] == si)
+            if run.sim.counters.get("read_error", 0):
+                probes["server_read_error"] = 1
             if r[0] != "ok":
-                if stalled and isinstance(r[1], (asyncio.TimeoutError, TimeoutError, ValueError)):
-                    # the one relaxed case: the stalled operation may time out; a new client object must then succeed
-                    out["obs"].append(("search", cls, "stalled-timeout"))
-                    host.obj = None
+                if (hit or after_fault) and r[0] == "exc":
+                    # the one relaxed case: an operation hit by an injected stall / failing system call -- or issued on the very client
+                    # object that sat through one -- may fail; nothing wrong may be delivered, and a new client object must succeed
+                    out["obs"].append(("search", cls, "failed-under-fault"))
+                    probes["op_failed_under_fault"] = 1
+                    run.seam.fail_read = None
+                    if knobs.get("keep_after_fault") and not after_fault:
+                        after_fault = True  # a long-lived client simply goes on with its next search on the same object
+                        probes["client_object_kept_after_fault"] = 1
+                        continue
+                    await host.drop()  # the application gives up on this object (its process ends: the connection is closed)
+                    after_fault = False
                     await asyncio.sleep(80)
                     r = await host.search(sid, w, fresh=True, keep=True)
                     if r[0] != "ok":
-                        viol.append(V("C09.search", "STEP_FAILED", f"search({st['w']!r}) on a new client object after a stalled one failed: {r[1]!r:.100}", site="search-after-stall"))
+                        viol.append(V("C09.search", "STEP_FAILED", f"search({st['w']!r}) on a new client object after a faulted one failed: {r[1]!r:.100}", site="search-after-fault"))
                         return
                 else:
                     def direct():
@@ -320,6 +363,8 @@ class C09(P.Property):
                     viol.append(V("C09.search", kind, f"search({st['w']!r}, {cls}) raised {r[1]!r:.120} ({scheme}, lists {[len(v) for v in db.values()]})", site=site,
                                   exc=type(r[1]).__name__))
                     return
+            if r[0] == "ok" and after_fault and not hit:
+                after_fault = False
             box, s = r[1]
             if len(box) != 1:
                 viol.append(V("C09.search", "WRONG_RESULT", f"search({st['w']!r}): the callback was called {len(box)} times", site="search"))
@@ -386,7 +431,7 @@ class C09(P.Property):
     def simplifications(self, plan):
         k = plan["knobs"]
         for key, val in (("skew", 1.0), ("bufsize", 8192), ("net", dict(lo=0.01, hi=0.01)), ("stall", None), ("restart_after_upload", False),
-                         ("recreate", [False] * 5), ("gaps", [0] * 5), ("cfg_index", 0), ("decoy", False), ("sse2_spare", 0)):
+                         ("recreate", [False] * 5), ("gaps", [0] * 5), ("cfg_index", 0), ("decoy", False), ("sse2_spare", 0), ("read_fault", None), ("blocker", None)):
             if k.get(key) != val:
                 yield dict(plan, knobs=dict(k, **{key: val}))
         db = k["db"]
